@@ -54,6 +54,7 @@ type Prog struct {
 	Wide          []int `json:"wide,omitempty"`          // per replica: starts holding that many independent short histories (as many heads)
 	ReplicaOrders []int `json:"replicaOrders,omitempty"` // SortFn of replica i when it differs from the world's (-1 / absent: the world's ordering)
 	ClockIDs      []int `json:"clockIds,omitempty"`      // id carried by the LogOptions.Clock of a replica with an initial clock: 0 its own key, 1 another writer's key, 2 empty
+	SharedOpts    bool  `json:"sharedOpts,omitempty"`    // the application opens every replica that has no initial state of its own with ONE LogOptions value (the same pointer handed to NewLog each time)
 }
 
 // toggleAC is a permissive access controller that can be told to deny everything (for "appenddenied").
@@ -118,21 +119,22 @@ var PointerCounts = []int{0, 1, 1, 2, 3, 4, 8, 16, 64}
 
 // GenConfig tunes the generator.
 type GenConfig struct {
-	MaxReplicas int
-	MaxOps      int
-	MinOps      int
-	Codecs      []int // allowed codecs
-	Orders      []int
-	WithSync    bool
-	NoRebuild   bool
-	NoSetID     bool
-	NoBadJoin   bool // leave out "joinbad": a merge that must be refused (an unsigned candidate)
-	WithPartial bool // include "loadtail": the replica restarts from a length-limited load (its log is then not causally closed)
-	WithLoad    bool // include "load": the replica restarts from the store (manifest / JSON heads / head entries)
-	AppendBias  int  // extra weight for appends
-	WideOneIn   int  // > 0: about one program in that many starts every replica with 21-40 independent short histories (many heads)
-	ContinuedOneIn int // > 0: about one program in that many is a log that continues the history of another log (see Prog.Continued)
-	LargeOneIn  int  // > 0: about one program in that many starts every replica from a prefix of one long shared history (> 1000 entries)
+	MaxReplicas     int
+	MaxOps          int
+	MinOps          int
+	Codecs          []int // allowed codecs
+	Orders          []int
+	WithSync        bool
+	NoRebuild       bool
+	NoSetID         bool
+	NoBadJoin       bool // leave out "joinbad": a merge that must be refused (an unsigned candidate)
+	WithPartial     bool // include "loadtail": the replica restarts from a length-limited load (its log is then not causally closed)
+	WithLoad        bool // include "load": the replica restarts from the store (manifest / JSON heads / head entries)
+	AppendBias      int  // extra weight for appends
+	WideOneIn       int  // > 0: about one program in that many starts every replica with 21-40 independent short histories (many heads)
+	ContinuedOneIn  int  // > 0: about one program in that many is a log that continues the history of another log (see Prog.Continued)
+	LargeOneIn      int  // > 0: about one program in that many starts every replica from a prefix of one long shared history (> 1000 entries)
+	SharedOptsOneIn int  // > 0: about one program in that many opens its replicas with one shared LogOptions value (see Prog.SharedOpts); sequential programs only
 }
 
 func Gen(t *rapid.T, cfg GenConfig) Prog {
@@ -228,6 +230,9 @@ func Gen(t *rapid.T, cfg GenConfig) Prog {
 	if cfg.WithSync {
 		p.Sync = rapid.SliceOfN(rapid.IntRange(0, 1<<16), 4, 12).Draw(t, "sync")
 	}
+	if cfg.SharedOptsOneIn > 0 && rapid.IntRange(0, cfg.SharedOptsOneIn-1).Draw(t, "sharedOpts") == 0 {
+		p.SharedOpts = true
+	}
 	return p
 }
 
@@ -243,6 +248,8 @@ func New(tb ev.TB, p *Prog) *World {
 	if p.Replicas < 1 {
 		p.Replicas = 1
 	}
+	var sharedLo *ipfslog.LogOptions
+	var sharedAC *toggleAC
 	for i := 0; i < p.Replicas; i++ {
 		wr := 0
 		if i < len(p.Writers) {
@@ -313,7 +320,20 @@ func New(tb ev.TB, p *Prog) *World {
 		if i < len(p.ReplicaOrders) && p.ReplicaOrders[i] >= 0 {
 			order = world.Ordering(p.ReplicaOrders[i] % 3)
 		}
-		l, err := world.NewLog(w.Store.API(), wr, LogID, order, w.IO, lo)
+		var l *ipfslog.IPFSLog
+		var err error
+		if p.SharedOpts && lo.Clock == nil && lo.Entries == nil && order == w.Order {
+			// one options value for all such replicas, handed to the library as it is (the library fills in its
+			// defaults through the pointer; the next NewLog gets the same value again)
+			if sharedLo == nil {
+				sharedLo = &ipfslog.LogOptions{ID: LogID, SortFn: world.SortFn(w.Order), IO: w.IO, AccessController: ac, Concurrency: lo.Concurrency}
+				sharedAC = ac
+			}
+			ac = sharedAC
+			l, err = ipfslog.NewLog(w.Store.API(), world.Identity(wr), sharedLo)
+		} else {
+			l, err = world.NewLog(w.Store.API(), wr, LogID, order, w.IO, lo)
+		}
 		if err != nil {
 			tb.Fatalf("harness: NewLog: %v", err)
 		}
